@@ -114,6 +114,39 @@ class PendingComp(PendingExprGeneric[_CompNode]):
 
         self.nsp.comp_stack.append(self)
 
+    def _iter_fields(self):
+        for field_name in self.node._fields:
+            field = getattr(self.node, field_name)
+            if field_name == "generators":
+                converted_list = self.converted_dict[field_name] = []
+                for index, comp in enumerate(field):
+                    target = yield comp.target
+                    if index == 0:
+                        # The first iterable is evaluated in the enclosing scope:
+                        # the targets of this comprehension are not visible there
+                        # (and the names of a class body are).
+                        assert self.nsp.comp_stack[-1] is self
+                        self.nsp.comp_stack.pop()
+                        comp_iter = yield comp.iter
+                        self.nsp.comp_stack.append(self)
+                    else:
+                        comp_iter = yield comp.iter
+                    ifs = []
+                    for _if in comp.ifs:
+                        ifs.append((yield _if))
+                    converted_list.append(
+                        comprehension(
+                            target=target,
+                            iter=comp_iter,
+                            ifs=ifs,
+                            is_async=comp.is_async,
+                        )
+                    )
+            elif isinstance(field, expr):
+                self.converted_dict[field_name] = yield field
+            else:
+                self.converted_dict[field_name] = field
+
     def get_result(self) -> expr:
         assert self.nsp.comp_stack[-1] is self
         self.nsp.comp_stack.pop()
